@@ -827,6 +827,38 @@ class World:
         self.check_heap(op)
         return {"involved": [recv], "method_use": True}
 
+    # -- edits the caller makes directly (documented: items are plain dicts with attribute
+    # access; "you can use those [in-place methods] from the list baseclass") ---------------
+
+    def op_item_set(self, op):
+        recv = op["t"]
+        real = self.lists[recv]
+        m = self.model[recv]
+        if not m.items:
+            return {"involved": [], "method_use": False}
+        i = op["index"] % len(m.items)
+        item = list.__getitem__(real, i)
+        v = copy.deepcopy(op["value"])
+        if op.get("via") == "attr" and op["key"].isidentifier():
+            setattr(item, op["key"], v)
+        else:
+            item[op["key"]] = v
+        m.items[i][op["key"]] = copy.deepcopy(op["value"])
+        self.check_heap(op)
+        return {"involved": [], "method_use": False}
+
+    def op_list_append(self, op):
+        recv = op["t"]
+        real = self.lists[recv]
+        m = self.model[recv]
+        new = self.AD(copy.deepcopy(op["item"]))
+        list.append(real, new)
+        mnew = copy.deepcopy(op["item"])
+        m.items.append(mnew)
+        self.pair(new, mnew)
+        self.check_heap(op)
+        return {"involved": [], "method_use": False}
+
     # -- plain-value observers ---------------------------------------------
 
     def op_pluck(self, op):
@@ -1546,10 +1578,11 @@ class Gen:
             "agg": ["aggregate", "split", "group_by"],
             "copy": ["deepcopy", "copy"],
             "observe": ["pluck", "keys", "len", "getitem", "map"],
+            "direct": ["item_set", "list_append"],
             "render": ["render"],
         }
         weights = {"subset": 3, "order": 2, "algebra": 3, "edit": 3, "join": 2, "agg": 1,
-                   "copy": 2, "observe": 1, "render": 1}
+                   "copy": 2, "observe": 1, "render": 1, "direct": 1}
         if prop == "C15":
             weights.update(subset=4, order=3, algebra=5, edit=4, join=1)
         elif prop == "C16":
@@ -1955,6 +1988,21 @@ class Gen:
     def g_group_by(self):
         op = self.base("group_by", out=False)
         op["keys"] = [self.rng.choice(KEYS_INT)]
+        return op
+
+    def g_item_set(self):
+        op = self.base("item_set", out=False)
+        r = self.rng
+        op["index"] = r.randrange(8)
+        op["key"] = r.choice(KEYS_INT + KEYS_STR + FRESH[:2])
+        op["value"] = self.value(op["key"]) if op["key"] in KEYS_ALL else r.choice([0, 1, "x"])
+        if r.random() < 0.4:
+            op["via"] = "attr"
+        return op
+
+    def g_list_append(self):
+        op = self.base("list_append", prefer_nonempty=False, out=False)
+        op["item"] = self.item()
         return op
 
     def g_pluck(self):
